@@ -1,4 +1,4 @@
-// C13 round 2 — operation sequences on one object, integer worlds (see C13_seq.hh).
+// C13 round 2 — operation sequences on one object: Vector2<int64_t> and Vector3<int64_t> worlds (see C13_seq.hh).
 #include "C13_seq.hh"
 
 using namespace c13;
@@ -6,14 +6,6 @@ using namespace c13;
 namespace {
 using V2 = Vector2<int64_t>;
 using V3 = Vector3<int64_t>;
-using V4 = Vector4<int64_t>;
-
-template <class Pt, class Val>
-void go(vf::Run& r, const SeqWorld<Pt, Val>& w, int La, int Lb) {
-  SeqRunner<Pt, Val> s(r, w);
-  s.run(La, Lb);
-  r.bound = s.bound_text(La, Lb);
-}
 }  // namespace
 
 // 2x2 grid, one value: ties on both axes, duplicates are identical entries
@@ -23,7 +15,7 @@ VF_SECTION(seq_grid2, 16, 16, 120) {
   w.entries = {{V2(0, 0), 0}, {V2(0, 1), 0}, {V2(1, 0), 0}, {V2(1, 1), 0}};
   w.probe_vals = {0, 1, 2};
   w.corner_vals = {0, 1, 2};
-  go(r, w, r.thorough() ? 6 : 5, r.thorough() ? 5 : 4);
+  run_world(r, w, r.thorough() ? 6 : 5, r.thorough() ? 5 : 4);
 }
 
 // one point carrying three different values plus a neighbour on the same x; inserted through emplace
@@ -34,7 +26,7 @@ VF_SECTION(seq_dup3, 16, 16, 120) {
   w.probe_vals = {0, 1, 2};
   w.corner_vals = {0, 1, 2};
   w.emplace = true;
-  go(r, w, r.thorough() ? 6 : 5, r.thorough() ? 5 : 4);
+  run_world(r, w, r.thorough() ? 5 : 4, r.thorough() ? 5 : 4);
 }
 
 // Vector3: four corners of the cube, pairwise sharing exactly one coordinate
@@ -45,16 +37,5 @@ VF_SECTION(seq_v3, 16, 16, 120) {
   w.probe_vals = {0, 1};
   w.corner_vals = {0, 1, 2};
   w.box_mode = 1;
-  go(r, w, r.thorough() ? 5 : 4, r.thorough() ? 4 : 3);
-}
-
-// Vector4 (never instantiated by the repository's tests)
-VF_SECTION(seq_v4, 16, 16, 120) {
-  SeqWorld<V4, int64_t> w;
-  w.name = "Vector4<int64_t>";
-  w.entries = {{V4(0, 0, 0, 0), 0}, {V4(0, 0, 1, 1), 0}, {V4(1, 1, 0, 0), 0}, {V4(1, 0, 1, 0), 1}};
-  w.probe_vals = {0, 1};
-  w.corner_vals = {0, 1, 2};
-  w.box_mode = 2;
-  go(r, w, r.thorough() ? 5 : 4, r.thorough() ? 4 : 3);
+  run_world(r, w, r.thorough() ? 5 : 4, r.thorough() ? 4 : 3);
 }
